@@ -229,6 +229,49 @@ func CompareRange(st *mavl.Store, root []byte, model map[string]string, start, e
 	return ""
 }
 
+// CompareRangeInclusive loads the root into a fresh Tree and runs Tree.IterateRangeInclusive over
+// [start,end] (the end key itself belongs to the range) and compares with the model; "" if equal.
+func CompareRangeInclusive(st *mavl.Store, root []byte, model map[string]string, start, end Bound, asc bool) string {
+	t := mavldb.NewTree(st.GetDB(), true, st.VerifTreeCfg())
+	if err := t.Load(root); err != nil {
+		return fmt.Sprintf("Tree.Load: %v", err)
+	}
+	var gotK []string
+	var gotV [][]byte
+	t.IterateRangeInclusive(start.Bytes(), end.Bytes(), asc, func(k, v []byte) bool {
+		gotK = append(gotK, string(k))
+		gotV = append(gotV, append([]byte{}, v...))
+		return false
+	})
+	want := RangeModel(model, start, end, true)
+	if !end.Nil {
+		if _, ok := model[end.K]; ok && (start.Nil || end.K >= start.K) {
+			want = append(want, end.K)
+		}
+	}
+	if !asc {
+		for i, j := 0, len(want)-1; i < j; i, j = i+1, j-1 {
+			want[i], want[j] = want[j], want[i]
+		}
+	}
+	dir := "asc"
+	if !asc {
+		dir = "desc"
+	}
+	if len(gotK) != len(want) {
+		return fmt.Sprintf("iterate-inclusive[%v,%v] %s: visited %q, state has %q in bounds", start, end, dir, gotK, want)
+	}
+	for i := range want {
+		if gotK[i] != want[i] {
+			return fmt.Sprintf("iterate-inclusive[%v,%v] %s: visited %q, state has %q in bounds", start, end, dir, gotK, want)
+		}
+		if string(gotV[i]) != model[want[i]] {
+			return fmt.Sprintf("iterate-inclusive[%v,%v] %s: key %q visited with value %q, state has %q", start, end, dir, want[i], gotV[i], model[want[i]])
+		}
+	}
+	return ""
+}
+
 // Shape checks the structural invariants of a raw tree copy and renders its shape.
 // bad == "" when: leaves have height 0/size 1; inner nodes have height = max(children)+1,
 // size = sum, |balance| <= 1, key = smallest key of the right subtree, left keys < key <= right keys.
